@@ -439,7 +439,8 @@ namespace Pistache::Http
             // This is the first time we are reading the payload
             else
             {
-                message->body_.reserve(contentLength);
+                // reserve for what has arrived, not for what the peer announces
+                message->body_.reserve(std::min<size_t>(contentLength, cursor.remaining()));
                 if (!readBody(contentLength))
                     return State::Again;
             }
@@ -498,11 +499,14 @@ namespace Pistache::Http
                 return Final;
             }
 
-            message->body_.reserve(size);
             StreamCursor::Token chunkData(cursor);
             const ssize_t available = cursor.remaining();
 
-            if (available + alreadyAppendedChunkBytes < size + 2)
+            // reserve for what has arrived, not for what the peer announces
+            message->body_.reserve(message->body_.size() + std::min(available, size - alreadyAppendedChunkBytes));
+
+            // (written so that a huge announced size cannot overflow)
+            if (available + alreadyAppendedChunkBytes - 2 < size)
             {
                 // only chunk data goes to the body, never a part of the trailing CRLF
                 const ssize_t dataAvailable = std::min(available, size - alreadyAppendedChunkBytes);
